@@ -534,6 +534,29 @@ def dynamic_slice(ins, params):
   return TermArr(out, sym.sp)
 
 
+def apply_uf(prim_name, params, ins, sp):
+  """Symbolic rule for the uninterpreted primitives uf / ufd (elementwise z3 functions)."""
+  name = params['name'] if prim_name == 'uf' else f"{params['name']}__d{params['index']}"
+  n = len(ins)
+  f = sp.ufs.get((name, n))
+  if f is None:
+    f = z3.Function(name, *([z3.RealSort()] * (n + 1)))
+    sp.ufs[(name, n)] = f
+  sym = next(x for x in ins if isinstance(x, TermArr))
+  arrs = [x.a if isinstance(x, TermArr) else sym._other(x) for x in ins]
+  shape = np.broadcast_shapes(*[a.shape for a in arrs])
+  arrs = [np.broadcast_to(a, shape) for a in arrs]
+  out = np.empty(int(np.prod(shape, dtype=int)), dtype=object)
+  for i, vals in enumerate(zip(*[a.flat for a in arrs])):
+    zs = []
+    for v in vals:
+      v = R(v)
+      if z3.is_int(v): v = z3.ToReal(v)
+      zs.append(v)
+    out[i] = f(*zs)
+  return TermArr(out.reshape(shape), sp)
+
+
 def gather_symbolic_index(ins, params, prim=None):
   """gather whose start indices are symbolic Int terms: each output element is an ite-chain over the
   possible (clamped) values of ITS index vector; the data movement for every concrete index value is
